@@ -12,7 +12,6 @@ import (
 	"strings"
 	"time"
 
-	"github.com/gorilla/websocket"
 	. "zharness/hz"
 )
 
@@ -40,18 +39,17 @@ func (i *ipcConn) recv(d time.Duration) (json.RawMessage, error) {
 }
 func (i *ipcConn) close() { i.c.Close() }
 
-type wsConn struct{ c *websocket.Conn }
+type wsConn struct{ c *rawWS }
 
 func (w *wsConn) send(b []byte) error {
-	w.c.SetWriteDeadline(time.Now().Add(20 * time.Second))
-	return w.c.WriteMessage(websocket.TextMessage, b)
+	w.c.c.SetWriteDeadline(time.Now().Add(20 * time.Second))
+	return w.c.writeText(b)
 }
 func (w *wsConn) recv(d time.Duration) (json.RawMessage, error) {
-	w.c.SetReadDeadline(time.Now().Add(d))
-	_, m, err := w.c.ReadMessage()
-	return m, err
+	w.c.c.SetReadDeadline(time.Now().Add(d))
+	return w.c.readMessage()
 }
-func (w *wsConn) close() { w.c.Close() }
+func (w *wsConn) close() { w.c.close() }
 
 func (h *hostileRun) dialStream(transport string) (streamConn, error) {
 	if transport == "ipc" {
@@ -63,11 +61,10 @@ func (h *hostileRun) dialStream(transport string) (streamConn, error) {
 		d.UseNumber()
 		return &ipcConn{c, d}, nil
 	}
-	c, _, err := (&websocket.Dialer{HandshakeTimeout: 20 * time.Second}).Dial(h.c.info.WS, nil)
+	c, err := dialWS(h.c.info.WS)
 	if err != nil {
 		return nil, err
 	}
-	c.SetReadLimit(256 << 20)
 	return &wsConn{c}, nil
 }
 
